@@ -27,6 +27,21 @@ def run(tier, seed, selftest=False, replay=None):
         lang, sw, seeds = jobs[i]
         return json.loads(run_driver("inv_exec.py", [lang, json.dumps(sw), json.dumps(seeds), os.path.join(d, "p%d.json" % i)], timeout=3400))
     files = [f for fl in parallel(ex, range(len(jobs))) for f in fl]
+    nshapes = 0
+    if not replay and not selftest:
+        # expression shapes (HExprGen): every binary expression over 12 operand kinds and 6 operators, as real programs, 4 translators
+        g = tlc_must("HExprGen", cfg(init="Init", next_="Next", constraints=["Emit"]), workers=1, name="gen_expr", timeout=600)
+        seen, shapes = set(), []
+        for j in g.json:
+            kx = json.dumps(j, sort_keys=True)
+            if kx not in seen:
+                seen.add(kx)
+                shapes.append(j)
+        nshapes = len(shapes)
+        sfile = write_json(os.path.join(d, "shapes.json"), shapes)
+        nosw = dict(disUse=False, disContra=False, noBounds=False, noParamFn=False)
+        files += [f for fl in parallel(lambda lg: json.loads(run_driver("inv_exec.py", [lg, json.dumps(nosw), "[]", os.path.join(d, "expr_%s.json" % lg), sfile],
+                                                                        timeout=3400)), ["java", "kotlin", "groovy", "scala"]) for f in fl]
     if selftest:
         return selftest_run(files[0])
     vals = parallel(validate, files)
@@ -51,6 +66,8 @@ def run(tier, seed, selftest=False, replay=None):
                             "%s %r: expected %d occurrence(s) in the %s text of %s, found %d" % (kind, name, exp, p["lang"], p["id"], got))
     rc = verdict.finish()
     write_evidence(PID, tier, seed, "exploration", {
+        "expression_shapes": {"shapes": nshapes, "languages": 4, "rule": "HExprGen: val res = (L op R) for every pair of 12 operand kinds and 6 operators, built as real "
+                              "programs and translated by the real translators; judged by the same HInventory / HSurface facts (model_checking within that family)"},
         "evaluations": nprobes + nhdr, "distinct_nontrivial": nprog, "headers_compared": nhdr,
         "rule": "generated, erased and overwritten programs of 4 languages are translated by the real translators; for every class, function, "
                 "variable/field declaration (typed / untyped), inferable constructor call and string literal of the program TLC computes from the "
